@@ -147,7 +147,20 @@ def dispatch2 (op : String) (args : List SExp) : Option String :=
      | none => "(bad-arg)")
   | "fromstr", [.atom h] =>
     some (match hexToBytes h with
-     | some b => showValue (valueFromStr b)
+     | some b =>
+        -- model ## the property's wording: true/false → boolean, a decimal 32-bit integer → integer, anything else → keyword
+        let digits (ds : Bytes) : Option Int := if ds.isEmpty || !ds.all (fun c => 0x30 ≤ c && c ≤ 0x39) then none
+          else some (ds.foldl (fun (a : Int) c => a * 10 + ((c.toNat - 0x30 : Nat) : Int)) 0)
+        let num : Option Int := match b with
+          | 0x2d :: r => (digits r).map (fun v => -v)
+          | 0x2b :: r => digits r
+          | _ => digits b
+        let spec : Value :=
+          if b == trueLit then .bool true else if b == falseLit then .bool false
+          else match num with
+            | some v => if -2147483648 ≤ v && v ≤ 2147483647 then .int .integer (UInt32.ofNat ((v % 4294967296).toNat)) else .str .keyword b
+            | none => .str .keyword b
+        s!"{showValue (valueFromStr b)} ## {showValue spec}"
      | none => "(bad-arg)")
   | "canon", [_, _, _, _, c] =>
     some (match readComponents c with
@@ -258,7 +271,10 @@ def dispatch2 (op : String) (args : List SExp) : Option String :=
             (match st.toNat?, hexToBytes body with
              | some st, some body =>
                let cut := opts.findSome? fun (e : SExp) => match e with | SExp.list [SExp.atom "cut", SExp.atom n] => n.toNat? | _ => none
-               let stall := opts.findSome? fun (e : SExp) => match e with | SExp.list [SExp.atom "stall", SExp.atom n] => n.toNat? | _ => none
+               let stall := opts.findSome? fun (e : SExp) => match e with
+                 | SExp.list [SExp.atom "stall", SExp.atom n] => n.toNat?
+                 | SExp.list [SExp.atom "takes", SExp.atom n] => n.toNat?     -- total time a trickling server needs
+                 | _ => none
                some ⟨st, body, cut, stall⟩
              | _, _ => none)
           | _ => none
